@@ -128,6 +128,138 @@ pub fn cases(prop: &str, seed: u64, tier: &str) -> Vec<String> {
                 out.push("D".into());
             }
         }
+        "C15" => {
+            let b = budget(tier, 25, 400);
+            for _ in 0..b.mappings {
+                let o = GenOpts { dom: Dom::Representable, max_classes: 3, noise: false };
+                let m = gen_mapping(&mut r, &o);
+                if !representable(m.as_bytes()) {
+                    continue;
+                }
+                push_mapping(&mut out, m.as_bytes());
+                // at most k bytes per call
+                for k in 0..=16 {
+                    out.push(format!("Z max={}", k));
+                }
+                // the number of write calls of an unlimited sink bounds the interesting call indices
+                let calls = 12 + 2 * universe(m.as_bytes()).classes.len();
+                for i in 0..calls {
+                    out.push(format!("Z max=0 {}:S1", i));
+                    out.push(format!("Z max=0 {}:S0", i));
+                    out.push(format!("Z max=0 {}:F", i));
+                    out.push(format!("Z max=0 {}:I", i));
+                    out.push(format!("Z max=5 {}:I {}:S2 {}:F", i, i + 1, i + 7));
+                }
+                for _ in 0..20 {
+                    let mx = r.below(9);
+                    let mut toks = Vec::new();
+                    for _ in 0..r.below(5) {
+                        let i = r.below(60);
+                        let resp = match r.below(4) { 0 => "I".to_string(), 1 => "F".to_string(), 2 => format!("S{}", r.below(4)), _ => "I".to_string() };
+                        toks.push(format!("{}:{}", i, resp));
+                    }
+                    out.push(format!("Z max={} {}", mx, toks.join(" ")).trim_end().to_string());
+                }
+            }
+        }
+        "C18" => {
+            let b = budget(tier, 150, 3000);
+            push_mapping(&mut out, b"");
+            out.push("U".into());
+            for (_, bytes) in corpus_files() {
+                if bytes.len() > 200_000 && !b.thorough {
+                    continue;
+                }
+                push_mapping(&mut out, &bytes);
+                out.push("U".into());
+                // LF vs CRLF variants are different files and get different identifiers
+                let crlf: Vec<u8> = String::from_utf8_lossy(&bytes).replace('\n', "\r\n").into_bytes();
+                push_mapping(&mut out, &crlf);
+                out.push("U".into());
+            }
+            for i in 0..b.mappings {
+                let bytes: Vec<u8> = match i % 4 {
+                    0 => gen_mapping(&mut r, &WILD).into_bytes(),
+                    1 => raw_bytes(&mut r),
+                    _ => {
+                        // lengths around the SHA-1 block and padding boundaries, up to 1 MiB in the thorough tier
+                        let n = match r.below(8) {
+                            0 => 55 + r.below(3),
+                            1 => 63 + r.below(3),
+                            2 => 119 + r.below(3),
+                            3 => r.below(5000),
+                            4 if b.thorough && i % 200 == 2 => 1 << 20,
+                            _ => r.below(300),
+                        };
+                        (0..n).map(|_| r.below(256) as u8).collect()
+                    }
+                };
+                push_mapping(&mut out, &bytes);
+                out.push("U".into());
+            }
+        }
+        "C14" | "C09" => {
+            let b = budget(tier, 300, 6000);
+            for i in 0..b.mappings {
+                let o = GenOpts { dom: Dom::Representable, max_classes: if i % 25 == 0 { 120 } else { 6 }, noise: true };
+                let m = gen_mapping(&mut r, &o);
+                if !representable(m.as_bytes()) {
+                    continue;
+                }
+                push_mapping(&mut out, m.as_bytes());
+                out.push("W".into());
+                out.push("W".into());
+            }
+            for (_, bytes) in corpus_files() {
+                if bytes.len() > 400_000 && !b.thorough {
+                    continue;
+                }
+                push_mapping(&mut out, &bytes);
+                out.push("W".into());
+            }
+        }
+        "C20" => {
+            let b = budget(tier, 60, 1500);
+            for _ in 0..b.mappings {
+                let m = gen_mapping(&mut r, &REP);
+                if !representable(m.as_bytes()) {
+                    continue;
+                }
+                push_mapping(&mut out, m.as_bytes());
+                let q = QuerySel { class: true, method: true, lines: true, params: true, all_lines: false, both_files: false };
+                let mut qs = Vec::new();
+                emit_queries(&mut qs, m.as_bytes(), &mut r, q);
+                if qs.len() > 400 {
+                    let step = qs.len() / 400 + 1;
+                    qs = qs.into_iter().step_by(step).collect();
+                }
+                out.extend(qs);
+                emit_text_queries(&mut out, m.as_bytes(), &mut r, 3, 3, 3);
+            }
+        }
+        "C10" => {
+            let b = budget(tier, 80, 2500);
+            for _ in 0..b.mappings {
+                let m = gen_mapping(&mut r, &REP);
+                if !representable(m.as_bytes()) {
+                    continue;
+                }
+                push_mapping(&mut out, m.as_bytes());
+                out.push("W".into());
+                let q = QuerySel { class: true, method: true, lines: true, params: true, all_lines: false, both_files: false };
+                let mut qs = Vec::new();
+                emit_queries(&mut qs, m.as_bytes(), &mut r, q);
+                if qs.len() > 300 {
+                    let step = qs.len() / 300 + 1;
+                    qs = qs.into_iter().step_by(step).collect();
+                }
+                out.extend(qs);
+                // typed remapping (Y) is not compared across releases: the pinned release has the defect F3
+                // (fixed by a9ed7b0), which changes typed answers independently of the file bytes
+                emit_text_queries(&mut out, m.as_bytes(), &mut r, 3, 0, 3);
+            }
+            corpus_queries(&mut out, &mut r, QuerySel { class: true, method: true, lines: true, params: true, all_lines: false, both_files: false }, b.thorough);
+        }
         "C05" => return cases_c05(seed, tier),
         "C17" => return cases_c17(seed, tier),
         "C11" => {
